@@ -1632,7 +1632,7 @@ func init() {
 		Old: "ok && newLeft.Op == js.AddToken {", New: "ok {",
 		Rule: "R01.10", Construct: "newLeft.Y read as string operand"})
 	mutant(&Mutant{Name: "c01-params-ignore-default", Property: "C01", File: "js/js.go",
-		Old: " || hasSideEffects(params.List[j-1].Default)", New: "",
+		Old: " || params.List[j-1].Default != nil && hasSideEffects(params.List[j-1].Default) {", New: " {",
 		Rule: "R01.12", Construct: "unused parameter removal"})
 	mutant(&Mutant{Name: "c01-math-without-decl", Property: "C01", File: "js/js.go",
 		Old: "ok && v.Decl == js.NoDecl && bytes.Equal(v.Data, MathBytes)", New: "ok && bytes.Equal(v.Data, MathBytes)",
